@@ -147,15 +147,21 @@ func (r *relativePathsResolver) volumeDriverOpts(a any) (any, error) {
 	if a == nil {
 		return nil, nil
 	}
-	vol := a.(map[string]any)
+	vol, ok := a.(map[string]any)
+	if !ok {
+		return nil, fmt.Errorf("unexpected type %T for a volume", a)
+	}
 	if vol["driver"] != "local" {
 		return vol, nil
 	}
 	do, ok := vol["driver_opts"]
-	if !ok {
+	if !ok || do == nil {
 		return vol, nil
 	}
-	opts := do.(map[string]any)
+	opts, ok := do.(map[string]any)
+	if !ok {
+		return nil, fmt.Errorf("unexpected type %T for driver_opts", do)
+	}
 	if dev, ok := opts["device"]; opts["o"] == "bind" && ok {
 		// This is actually a bind mount
 		path, err := r.maybeUnixPath(dev)
